@@ -118,8 +118,12 @@ func buildReplayTest(or *OblResult, dir string) (src string, pkgDir string, ok b
 				args = append(args, "[]byte(nil)")
 				continue
 			}
-			if cp.Cmp(big.NewInt(1<<20)) > 0 {
+			if ln.Cmp(big.NewInt(1<<20)) > 0 {
 				return "", "", false, "model slice too large to rebuild"
+			}
+			if cp.Cmp(big.NewInt(1<<20)) > 0 {
+				// a huge capacity in the model only says "room beyond len"; a little room shows the same behaviour
+				cp = new(big.Int).Add(ln, big.NewInt(64))
 			}
 			n := int(ln.Int64())
 			content, ok := sliceContents(or, dir, name, n)
